@@ -134,8 +134,15 @@ fn cmdline() -> impl Strategy<Value = String>
 
 fn plain_rule() -> impl Strategy<Value = PlainRule>
 {
-    (proptest::collection::btree_set(name(), 1..=4), proptest::collection::btree_set(name(), 1..=4), proptest::collection::vec(cmdline(), 1..=4))
-        .prop_map(|(t, s, c)| PlainRule { targets: t.into_iter().collect(), sources: s.into_iter().collect(), command: c })
+    prop_oneof![
+        4 => (proptest::collection::btree_set(name(), 1..=4), proptest::collection::btree_set(name(), 1..=4), proptest::collection::vec(cmdline(), 1..=4))
+            .prop_map(|(t, s, c)| PlainRule { targets: t.into_iter().collect(), sources: s.into_iter().collect(), command: c }),
+        // long rules: the text that identifies the rule spans several 256-byte blocks (many sources, long command lines)
+        1 => (proptest::collection::btree_set("[a-d]{1,3}", 1..=3), proptest::collection::btree_set("[a-f/_.]{6,30}", 2..=12), proptest::collection::vec("[a-z ]{10,70}", 3..=16))
+            .prop_map(|(t, s, c)| PlainRule { targets: t.into_iter().collect(),
+                sources: s.into_iter().filter(|x: &String| !x.starts_with('/') && !x.ends_with('/') && !x.contains("//")).chain(std::iter::once("zsrc".to_string())).collect(),
+                command: c }),
+    ]
 }
 
 fn dedup_sorted(mut v: Vec<String>) -> Vec<String>
@@ -149,7 +156,7 @@ fn mutate(a: &PlainRule, kind: u8, x: u16, y: u16) -> (PlainRule, &'static str)
 {
     let mut b = a.clone();
     let pick = |n: usize, i: u16| crate::verif::gen::pick(i, n);
-    let how = match kind % 19
+    let how = match kind % 21
     {
         0 => { "identical" }
         1 =>
@@ -285,6 +292,29 @@ fn mutate(a: &PlainRule, kind: u8, x: u16, y: u16) -> (PlainRule, &'static str)
                 }
             }
             "source split into two"
+        }
+        19 =>
+        {
+            // one character of one command line replaced
+            let i = pick(b.command.len(), x);
+            let mut chars: Vec<char> = b.command[i].chars().collect();
+            let k = pick(chars.len(), y);
+            chars[k] = if chars[k] == 'q' { 'r' } else { 'q' };
+            let s: String = chars.into_iter().collect();
+            if s != ":" { b.command[i] = s; }
+            "one character of a command line replaced"
+        }
+        20 =>
+        {
+            // one character of one source name replaced
+            let i = pick(b.sources.len(), x);
+            let mut chars: Vec<char> = b.sources[i].chars().collect();
+            let k = pick(chars.len(), y);
+            chars[k] = if chars[k] == 'q' { 'r' } else { 'q' };
+            let s: String = chars.into_iter().collect();
+            if s != ":" { b.sources[i] = s; }
+            b.sources = dedup_sorted(b.sources);
+            "one character of a source name replaced"
         }
         _ =>
         {
